@@ -10,9 +10,10 @@
 (*   status  reject => Err;  accept => Ok or Err;  never panic / budget    *)
 (*   ticks   the recorded step count respects 4096 + 256*len        (C02)  *)
 (*   value   on the computable fragment the recorded value is the spec's   *)
+(*   ast     the tree the parser built is the specification's (AstShape)   *)
 (*   pure    a repeated key has the outcome recorded the first time (C16)  *)
 (***************************************************************************)
-EXTENDS CallFn, ParseSteps, Json, IOUtils, TLC, TLCExt
+EXTENDS CallFn, ParseSteps, AstShape, Json, IOUtils, TLC, TLCExt
 
 Rec == ndJsonDeserialize(IOEnv.TRACE)
 
@@ -52,6 +53,12 @@ ValueOK(ev, syn) ==
                       /\ ev.val.t \in {"int", "Integer", "Float"}
                       /\ ev.val.v = val.v
 
+\* the tree the code's parser built (kept by the hook, reduced to its shape) is the tree of the parser definition; nothing the
+\* grammar rejects gets a tree, everything it accepts does
+AstOK(ev, syn) ==
+  /\ syn.v = "reject" => "ast" \notin DOMAIN ev
+  /\ syn.v = "accept" => ("ast" \in DOMAIN ev /\ ev.ast = Shape(syn.tree, syn.toks))
+
 PureOK(ev) == ("kid" \in DOMAIN ev /\ ev.kid \in DOMAIN seen) =>
                  /\ seen[ev.kid].canon = ev.canon
                  /\ seen[ev.kid].e = ev.e /\ seen[ev.kid].chars = ev.chars
@@ -59,7 +66,8 @@ PureOK(ev) == ("kid" \in DOMAIN ev /\ ev.kid \in DOMAIN seen) =>
 Diag(ev) ==
   LET syn == Syntax(ev.e, ev.chars) IN
   [failed |-> TLCGet(7),      \* the conjunct of EventOK that was being evaluated when the event was refused
-   claim |-> ClaimOK(ev, syn), status |-> StatusOK(ev, syn), ticks |-> TicksOK(ev) /\ StepsOK(ev, syn),
+   claim |-> ClaimOK(ev, syn), status |-> StatusOK(ev, syn), ticks |-> TicksOK(ev) /\ StepsOK(ev, syn), ast |-> AstOK(ev, syn),
+   shape |-> IF syn.v = "accept" THEN Shape(syn.tree, syn.toks) ELSE <<>>,
    parse_steps |-> IF LexOk(syn.toks) THEN ParseSt(KindsOf(syn.toks)).st ELSE -1,
    eval_nodes |-> IF syn.v = "accept" THEN EvalNodes(syn.tree) ELSE -1, value |-> ValueOK(ev, syn), pure |-> TLCGet(7) # "pure",
    verdict |-> syn.v, rule |-> syn.rule, kinds |-> KindsOf(syn.toks), expected |-> Value(ev.e, syn, PhOf(ev))]
@@ -69,6 +77,7 @@ EventOK(ev) ==
   /\ TLCSet(7, "claim")  /\ ClaimOK(ev, syn)
   /\ TLCSet(7, "status") /\ StatusOK(ev, syn)
   /\ TLCSet(7, "ticks")  /\ TicksOK(ev) /\ StepsOK(ev, syn)
+  /\ TLCSet(7, "ast")    /\ AstOK(ev, syn)
   /\ TLCSet(7, "value")  /\ ValueOK(ev, syn)
   /\ TLCSet(7, "pure")   /\ PureOK(ev)
   /\ TLCSet(7, "none")
